@@ -4,7 +4,7 @@ from . import genbytesmem as gb
 
 reg(Prop("C15",
          [("bytes", gb.g_bytes, 6), ("bytes_front", gb.g_bytes_front, 1), ("bytes_alias", gb.g_bytes_alias, 1),
-          ("bytes_small", gb.g_bytes_small, 1)],
+          ("bytes_small", gb.g_bytes_small, 1), ("bytes_big", gb.g_bytes_big, 1)],
          has("rich"),
          "small scope: all layouts over 6 addresses, <= 3 stores of width 1-3, full read-back (sampled); histories of 1-25 Store/Load/Missing/Blocks over a 60-byte window (also at 2^32, 2^63 and 2^64-300) on "
          "0-5 initial blocks with forced adjacency, gaps of one, overlaps and empty blocks; stores aimed at the "
